@@ -202,7 +202,7 @@ TEXT_OVERRIDES = {
  "C19": 'fit_dtype is AST-checked to be a pure threshold ladder, so it is constant on each cell of the partition induced by its constants; the grid contains every constant +-1, every +-2^k(+-1) up to 2^64 and an interior point per gap, so every cell is decided. The caller whose counter must reach the number of columns - collapsed() - is run on indexes with 127..257 (thorough ..65537) columns, five value triples and five precedence orders.',
 }
 
-TEXT_ADDENDA = {'C01': ' Second-day additions: nested lists / tuples, read-only and every narrower integer dtype as input; a many-to-one read-back mapping; row-scan arrays of 16 385 / 20 000 / 70 000 cells (block sizes of a chunked scan). Afterlife: every built index is read in full, appended to another index twice, has an entry emptied and is re-expressed - and must still convert back to the array it stands for after each step. Row-scan embeddings with neighbouring distinct values half a dtype range apart (INT64_MIN next to 0; -128 / 100 / 127 in int8); constant columns with an explicit common that differs from the value.', 'C02': ' A two-axis dimension of 300 .. 1 500 (5 000) columns crossed with a flat one; a quarter of the LONG family with every stored row-id array as a non-contiguous view. One cube object is asked again after each in-place change of its first dimension (another common value, a whole entry removed, a cell changed), next to a cube built after the change. A share of the multi-axis cubes is also counted with the worker pool switched on (real pool, default size and 7 workers).', 'C03': ' REPRESENTATION family (float32, read-only, Fortran, strided, integer weights, list / int32 dimensions over every data vector of three small shapes) and SCALE family (300 .. 20 001 (150 000) rows, three designs incl. a two-column dimension) against the same oracle; inferred array-cube shapes on the wide cubes. Index cubes over dimensions that went through IndxIO, were re-laid-out, or come out of append / filtered / sliced / reindexed / shift_common pipelines; one cube object asked again after in-place changes of its first dimension.', 'C04': ' RESIDUE family (12 rows, decimal weights, empty reconstructed cells), one wide dimension (100 / 200 / 300 categories) under a three-column fact with missing values, and single-precision facts / weights.', 'C05': ' The same combinations are reached through iindex.from_array(array, common=v); the count is also taken with the INFERRED cube shape; a SCALE family re-expresses two dimensions of 700 / 20 001 (70 001) rows through all 25 pairs of common values. One cube object built before the first re-expression is asked after every step; one tally per dimension is handed to successive from_array calls; re-expressed dimensions also go through IndxIO.save / load on the way to the cube.', 'C06': ' Beyond the graph (vf/bigops.py): entry-wise updates with row ids in seven representations over every row subset of two small indexes, collapsed(precedence, mapping) over every small array, and indexes of 128 .. 1 025 columns / 20 000 .. 70 000 rows through every operation once. Object lifetimes: from every state one object is read in full (incl. a cube built over it and an INDX save), changed in place (shift_common, append, update, count-preserving swaps followed by a shift, entry-wise set algebra) in four storage layouts (built, strided, read-only, loaded from INDX) and read again (incl. the cube built before the change and a save / load); alias checks run in both directions and include set algebra on the result; operations after filtered(mask, mask.sum()). reindexed with an explicitly empty mapping (the identity).', 'C07': ' The same invariants on the bigops families of C06 (representations of row ids, collapsed with a mapping, wide / tall indexes). Well-formedness is also required after the read-change-read transitions in all four layouts, and of SOURCES after their results were changed (shared buffers). The operand of append is re-examined after the call (well-formed, same key) and an index appended to itself joins the alphabet; the construction family runs as three parallel parts.', 'C08': ' Operands of 65 535 / 65 536 / 65 537 elements against short ones; unions of up to 300 inputs. Every pair of views of one buffer (same start and length, different strides) for every kernel.', 'C09': ' A GUARD-PAGE pass runs the UNMODIFIED kernels in a child process with every operand flush against PROT_NONE pages on both sides, contiguous and as reversed views (1M calls quick): accesses that bypass memoryview indexing fault there.', 'C10': ' Every seventh case is also saved with NumPy-scalar coordinates / common value and read-only, strided or reversed-view row-id arrays. What earlier loads returned must stay intact while later files are loaded; a live iindex is saved, changed in place and saved again. Saving over a longer existing file (every tail length 1..9) and loading the result.', 'C11': ' Every fifth case is also saved with NumPy integer scalars of six types as coordinates and common value and must give the same bytes. The byte comparison also with strided and reversed row-id arrays handed to the saver.', 'C12': ' Every eighth file (every seventh cut of the larger ones) is also loaded through a handle opened for update, which must reject it and leave its length alone; one larger file has 280 KiB. The complete file is loaded successfully (and the result dropped) before its torn versions are tried.', 'C13': " The array cube's own statistics (max/min, quantile, stddev, covariance, corrcoef) are checked block by block as well, and the array cube over the same dimensions in Fortran order, as a transposed view of axes-first data and as nested lists must give the same result. One index cube is asked again after in-place changes of a multi-axis dimension; the array cube is evaluated repeatedly over the narrow unsigned arrays an index converts to, which must stay untouched. The cubes of the first and last menu call are also evaluated with the worker pool switched on (real pool, default size; 7 workers for the first call).", 'C14': ' MANY family: 1 500 - 4 000 (20 000) rows over dimensions of 70 / 150 / 200 categories with a row-wise oracle; every third POPULOUS case with non-contiguous row-id arrays. Dimensions with read-only row ids and dimensions rebuilt from IndxIO.load results.', 'C15': ' from_array on arrays of 1 000 .. 131 077 (2^20) cells whose winner is decided by the last 40% of the cells. One tally is handed to successive from_array calls, also for arrays with five or more distinct values.', 'C16': " Harnesses at scale (70 000 rows with three aggregates; 1 296 sub-cubes) on the default schedule, a harness built with tracing=False, bytecode granularity on an array cube. Cubes re-evaluated in pooled mode after an in-place change of their first dimension (@reuse harnesses). Histories: the explored body may be 'evaluation cut short by StopIteration from the callback, then pooled evaluation' (@afterint). Harnesses whose squares overflow (x3huge; x2huge with two preemptions): process-global floating-point / warning state touched inside workers.", 'C17': " Function objects listed twice in one pass, dimensionless cubes; index side: row ids in seven representations, collapsed(precedence, mapping), and from_array's array / counts (content and key order) / mapping on both construction strategies stay untouched. Stale state between calls on one index object (memoised readers, cached extents, cubes that snapshot a dimension) is reported here when found by the read-change-read transitions. Cubes with a no-op check_interrupt installed (cK / xK); POKE checks: the caller edits NaN positions / values of an argument array in place between two identical calls and the second answer must equal a fresh evaluation.", 'C18': ' min / max over uint8 / uint16 / uint64 / int16 / int32 / float32 facts as well. SHARED-ARGS pass: one set of fact arrays handed to weighted stddev (missing weight), stddev under a pair weight, plain stddev, quantile, min, max, covariance in turn, each compared with the answer for freshly built arguments.', 'C19': ' The INDX coordinate word of files whose largest coordinate and common value run independently over the width boundaries must be the narrowest that holds both. The dense output dtype of to_array after every in-place change (union_update, difference_update, set_if, item assignment, shift_common, append, update) that crosses a width or sign boundary.', 'C20': " The interrupt is raised as 16 more exception classes; 'stops' includes that no sub-cube task is left queued on the pool when calculate raises (lazily failing imap in the model pool); harnesses at scale (70 000 rows: once per sub-cube also with several aggregates; 1 296 sub-cubes) and with tracing=False. Every serial case is also run on a cube that has already completed an evaluation. After every interrupted run the same objects are interrupted again by an exception of another class (serial: last invocation; pooled: first), which must propagate as that object; two / all invocations raising for each of the exception classes, StopIteration also with one preemption."}
+TEXT_ADDENDA = {'C01': ' Second-day additions: nested lists / tuples, read-only and every narrower integer dtype as input; a many-to-one read-back mapping; row-scan arrays of 16 385 / 20 000 / 70 000 cells (block sizes of a chunked scan). Afterlife: every built index is read in full, appended to another index twice, has an entry emptied and is re-expressed - and must still convert back to the array it stands for after each step. Row-scan embeddings with neighbouring distinct values half a dtype range apart (INT64_MIN next to 0; -128 / 100 / 127 in int8); constant columns with an explicit common that differs from the value. The caller overwrites the array an earlier to_array() returned and converts again; a read-back mapping that sends the stored common value to 0.', 'C02': ' A two-axis dimension of 300 .. 1 500 (5 000) columns crossed with a flat one; a quarter of the LONG family with every stored row-id array as a non-contiguous view. One cube object is asked again after each in-place change of its first dimension (another common value, a whole entry removed, a cell changed), next to a cube built after the change. A share of the multi-axis cubes is also counted with the worker pool switched on (real pool, default size and 7 workers).', 'C03': ' REPRESENTATION family (float32, read-only, Fortran, strided, integer weights, list / int32 dimensions over every data vector of three small shapes) and SCALE family (300 .. 20 001 (150 000) rows, three designs incl. a two-column dimension) against the same oracle; inferred array-cube shapes on the wide cubes. Index cubes over dimensions that went through IndxIO, were re-laid-out, or come out of append / filtered / sliced / reindexed / shift_common pipelines; one cube object asked again after in-place changes of its first dimension.', 'C04': ' RESIDUE family (12 rows, decimal weights, empty reconstructed cells), one wide dimension (100 / 200 / 300 categories) under a three-column fact with missing values, and single-precision facts / weights.', 'C05': ' The same combinations are reached through iindex.from_array(array, common=v); the count is also taken with the INFERRED cube shape; a SCALE family re-expresses two dimensions of 700 / 20 001 (70 001) rows through all 25 pairs of common values. One cube object built before the first re-expression is asked after every step; one tally per dimension is handed to successive from_array calls; re-expressed dimensions also go through IndxIO.save / load on the way to the cube.', 'C06': ' Beyond the graph (vf/bigops.py): entry-wise updates with row ids in seven representations over every row subset of two small indexes, collapsed(precedence, mapping) over every small array, and indexes of 128 .. 1 025 columns / 20 000 .. 70 000 rows through every operation once. Object lifetimes: from every state one object is read in full (incl. a cube built over it and an INDX save), changed in place (shift_common, append, update, count-preserving swaps followed by a shift, entry-wise set algebra) in four storage layouts (built, strided, read-only, loaded from INDX) and read again (incl. the cube built before the change and a save / load); alias checks run in both directions and include set algebra on the result; operations after filtered(mask, mask.sum()). reindexed with an explicitly empty mapping (the identity). INDX-NARROW family: indexes saved with 8 / 16-bit row-id words whose entries list more cells than the word counts, loaded and rebuilt.', 'C07': ' The same invariants on the bigops families of C06 (representations of row ids, collapsed with a mapping, wide / tall indexes). Well-formedness is also required after the read-change-read transitions in all four layouts, and of SOURCES after their results were changed (shared buffers). The operand of append is re-examined after the call (well-formed, same key) and an index appended to itself joins the alphabet; the construction family runs as three parallel parts. A rare value mapped onto the common one on the row-scan path of from_array; the INDX-NARROW family of C06.', 'C08': ' Operands of 65 535 / 65 536 / 65 537 elements against short ones; unions of up to 300 inputs. Every pair of views of one buffer (same start and length, different strides) for every kernel. Two long operands with 65 537 / 131 073 common elements; arrays returned by earlier kernel calls are kept alive and re-read.', 'C09': ' A GUARD-PAGE pass runs the UNMODIFIED kernels in a child process with every operand flush against PROT_NONE pages on both sides, contiguous and as reversed views (1M calls quick): accesses that bypass memoryview indexing fault there. Two long operands with 65 537 / 131 073 common elements (results that outgrow any initial buffer).', 'C10': ' Every seventh case is also saved with NumPy-scalar coordinates / common value and read-only, strided or reversed-view row-id arrays. What earlier loads returned must stay intact while later files are loaded; a live iindex is saved, changed in place and saved again. Saving over a longer existing file (every tail length 1..9) and loading the result. Every fifth case is preceded by failed loads of its own torn file.', 'C11': ' Every fifth case is also saved with NumPy integer scalars of six types as coordinates and common value and must give the same bytes. The byte comparison also with strided and reversed row-id arrays handed to the saver. Row ids in the other byte order (>u4): the writer may refuse, a file it writes must be the documented bytes.', 'C12': ' Every eighth file (every seventh cut of the larger ones) is also loaded through a handle opened for update, which must reject it and leave its length alone; one larger file has 280 KiB. The complete file is loaded successfully (and the result dropped) before its torn versions are tried.', 'C13': " The array cube's own statistics (max/min, quantile, stddev, covariance, corrcoef) are checked block by block as well, and the array cube over the same dimensions in Fortran order, as a transposed view of axes-first data and as nested lists must give the same result. One index cube is asked again after in-place changes of a multi-axis dimension; the array cube is evaluated repeatedly over the narrow unsigned arrays an index converts to, which must stay untouched. The cubes of the first and last menu call are also evaluated with the worker pool switched on (real pool, default size; 7 workers for the first call).", 'C14': ' MANY family: 1 500 - 4 000 (20 000) rows over dimensions of 70 / 150 / 200 categories with a row-wise oracle; every third POPULOUS case with non-contiguous row-id arrays. Dimensions with read-only row ids and dimensions rebuilt from IndxIO.load results. The same cube object is walked again after a walk.', 'C15': ' from_array on arrays of 1 000 .. 131 077 (2^20) cells whose winner is decided by the last 40% of the cells. One tally is handed to successive from_array calls, also for arrays with five or more distinct values. A result that stands for the right array and that validate() accepts must compare equal to its twin (even when C07 objects to it); equality is re-observed after every in-place change.', 'C16': " Harnesses at scale (70 000 rows with three aggregates; 1 296 sub-cubes) on the default schedule, a harness built with tracing=False, bytecode granularity on an array cube. Cubes re-evaluated in pooled mode after an in-place change of their first dimension (@reuse harnesses). Histories: the explored body may be 'evaluation cut short by StopIteration from the callback, then pooled evaluation' (@afterint). Harnesses whose squares overflow (x3huge; x2huge with two preemptions): process-global floating-point / warning state touched inside workers.", 'C17': " Function objects listed twice in one pass, dimensionless cubes; index side: row ids in seven representations, collapsed(precedence, mapping), and from_array's array / counts (content and key order) / mapping on both construction strategies stay untouched. Stale state between calls on one index object (memoised readers, cached extents, cubes that snapshot a dimension) is reported here when found by the read-change-read transitions. Cubes with a no-op check_interrupt installed (cK / xK); POKE checks: the caller edits NaN positions / values of an argument array in place between two identical calls and the second answer must equal a fresh evaluation. Cubes with the working shape of cA / xA split differently (cS / xS) and an array cube over dimension arrays already in its narrow dtype (xU).", 'C18': ' min / max over uint8 / uint16 / uint64 / int16 / int32 / float32 facts as well. SHARED-ARGS pass: one set of fact arrays handed to weighted stddev (missing weight), stddev under a pair weight, plain stddev, quantile, min, max, covariance in turn, each compared with the answer for freshly built arguments.', 'C19': ' The INDX coordinate word of files whose largest coordinate and common value run independently over the width boundaries must be the narrowest that holds both. The dense output dtype of to_array after every in-place change (union_update, difference_update, set_if, item assignment, shift_common, append, update) that crosses a width or sign boundary. MAPPED-DENSE family: to_array through a value mapping that does or does not mention the common value (13 commons x 7 target pairs): no error, no wrap, narrowest dtype when everything is mentioned.', 'C20': " The interrupt is raised as 16 more exception classes; 'stops' includes that no sub-cube task is left queued on the pool when calculate raises (lazily failing imap in the model pool); harnesses at scale (70 000 rows: once per sub-cube also with several aggregates; 1 296 sub-cubes) and with tracing=False. Every serial case is also run on a cube that has already completed an evaluation. After every interrupted run the same objects are interrupted again by an exception of another class (serial: last invocation; pooled: first), which must propagate as that object; two / all invocations raising for each of the exception classes, StopIteration also with one preemption."}
 
 NOT_YET = "check not built yet (work in progress in this session; see DESIGN.md section 11 for order)"
 
